@@ -712,4 +712,104 @@ theorem cross_head_coalesce_double_allocates :
         pure (a, b, m, x, y) : M _) = some (0, 5, 10, 0, 0) := by
   decide +kernel
 
+/-! ### the hypotheses are satisfiable: a concrete list and a two-step history -/
+
+section example_
+open Mmtk.Runs
+
+/-- the table `IntArrayFreeList::new(6, 3, 2)` builds -/
+def exT0 : Tab := { heads := 2, cells := #[1073741822, 1073741822, 3, 0, 3221225471, 2147483651, 0, 2147483651,
+  2147483648, 2147483651, 2147483648, 3221225471, 0, 2147483651, 2147483648, 2147483651, 6, 6] }
+/-- the fresh abstract state: 6 units, grain 3 -/
+def exA0 : AS := ⟨6, fun b => b == 3, fun _ => some 0, fun _ => false, fun _ => false⟩
+def exL0 : Nat → List Nat := fun k => if k = 0 then [0, 3] else []
+
+theorem exT0_new : okOf (IntArray.new true 6 3 2) = some exT0 := by decide +kernel
+
+theorem exA0_runs {s e : Nat} (h : IsRun exA0 s e) : (s = 0 ∧ e = 3) ∨ (s = 3 ∧ e = 6) := by
+  obtain ⟨h1, h2, h3, h4, h5⟩ := h
+  simp only [exA0, beq_iff_eq] at h2 h3 h4 h5
+  have := h5 3
+  simp at this
+  omega
+
+theorem exRun03 : IsRun exA0 0 3 :=
+  ⟨by decide, by decide, Or.inl rfl, Or.inr rfl, fun b h1 h2 => by simp [exA0]; omega⟩
+theorem exRun36 : IsRun exA0 3 6 :=
+  ⟨by decide, by decide, Or.inr rfl, Or.inl rfl, fun b h1 h2 => by simp [exA0]; omega⟩
+
+theorem exRel : Rel exT0 exA0 exL0 := by
+  constructor
+  · decide
+  · decide
+  · decide
+  · decide
+  · decide
+  · intro k hk
+    have : k = 0 ∨ k = 1 := by simp [exT0] at hk; omega
+    rcases this with rfl | rfl <;> decide
+  · intro k hk
+    have : k = 0 ∨ k = 1 := by simp [exT0] at hk; omega
+    rcases this with rfl | rfl <;> decide
+  · intro u hu
+    have : u = 0 ∨ u = 1 ∨ u = 2 ∨ u = 3 ∨ u = 4 ∨ u = 5 ∨ u = 6 := by simp [exA0] at hu; omega
+    rcases this with rfl | rfl | rfl | rfl | rfl | rfl | rfl <;> decide
+  · intro s e h
+    rcases exA0_runs h with ⟨rfl, rfl⟩ | ⟨rfl, rfl⟩
+    · refine ⟨by decide, fun _ => by decide, by decide, fun _ _ _ => rfl, fun k hk => ?_⟩
+      have : k = 0 := by simp [exA0] at hk; omega
+      subst this; exact ⟨by decide, Or.inl (by decide)⟩
+    · refine ⟨by decide, fun _ => by decide, by decide, fun _ _ _ => rfl, fun k hk => ?_⟩
+      have : k = 0 := by simp [exA0] at hk; omega
+      subst this; exact ⟨by decide, Or.inl (by decide)⟩
+  · intro k hk
+    have : k = 0 ∨ k = 1 := by simp [exT0] at hk; omega
+    rcases this with rfl | rfl
+    · refine ⟨?_, by decide, ?_⟩
+      · show Links exT0 (hd 0) (hd 0) [0, 3]
+        simp only [Links]; decide
+      · intro x hx
+        have : x = 0 ∨ x = 3 := by simpa [exL0] using hx
+        rcases this with rfl | rfl
+        · exact ⟨rfl, fun f => f, 3, exRun03⟩
+        · exact ⟨rfl, fun f => f, 6, exRun36⟩
+    · refine ⟨?_, by decide, ?_⟩
+      · show Links exT0 (hd 1) (hd 1) []
+        simp only [Links]; decide
+      · intro x hx
+        simp [exL0] at hx
+
+
+theorem exFresh : Fresh exA0 := ⟨fun _ => rfl, fun _ => rfl⟩
+theorem exAbs : Abs 2 exT0 exA0 := ⟨rfl, exL0, exRel⟩
+
+/-- `IntArrayFreeList::new(6, 3, 2)` (debug build) is well formed and represents the fresh abstract
+state (6 units, grain 3, everything on head 0's list); from it there is a two-step concrete history
+(allocate 2 units through head 0, free them again) that respects the protocol — the hypotheses of
+`alloc_refines'`, `free_refines'`, `step_refines`, `history_refines`, `concrete_history_no_overlap` and
+`concrete_history_conservation` hold for it. -/
+example : ∃ t0 a0, okOf (IntArray.new true 6 3 2) = some t0 ∧ Fresh a0 ∧ Abs 2 t0 a0 ∧ a0.units = 6 ∧
+    ∃ (s e : Nat) (t1 t2 : Tab), Pre a0 (.alloc 0 s 2 e) ∧ Pre (Runs.apply a0 (.alloc 0 s 2 e)) (.free 0 s (s + 2)) ∧
+      CReach true 2 t0 a0 t1 (Runs.apply a0 (.alloc 0 s 2 e)) ∧
+      CReach true 2 t0 a0 t2 (Runs.apply (Runs.apply a0 (.alloc 0 s 2 e)) (.free 0 s (s + 2))) := by
+  refine ⟨exT0, exA0, exT0_new, exFresh, exAbs, rfl, ?_⟩
+  rcases alloc_refines' (k := 0) (n := 2) true exAbs (by decide) (by decide) with ⟨s, e, t1, h1, h2, h3⟩ | ⟨_, h2⟩
+  · have hpre : Pre (Runs.apply exA0 (.alloc 0 s 2 e)) (.free 0 s (s + 2)) := by
+      obtain ⟨m1, m2⟩ := alloc_makes_run exA0 0 s 2 e h2
+      refine ⟨m1, m2 s (Nat.le_refl _) (by omega), ?_, ?_⟩
+      · intro hm
+        have := hm.1
+        have c : ¬ (s ≤ s - 1 ∧ s - 1 < s + 2) := by omega
+        simp only [Runs.apply, c, if_false]; rfl
+      · intro _
+        have c : ¬ (s ≤ s + 2 ∧ s + 2 < s + 2) := by omega
+        simp only [Runs.apply, c, if_false]; rfl
+    obtain ⟨t2, l, r, g1, _⟩ := free_refines' true true h3 (by decide) hpre
+    have s1 : CReach true 2 exT0 exA0 t1 (Runs.apply exA0 (.alloc 0 s 2 e)) :=
+      .step .init (.alloc 0 2 s e (by decide) h1 h2)
+    exact ⟨s, e, t1, t2, h2, hpre, s1, .step s1 (.free 0 s (s + 2) true _ (by decide) g1 hpre)⟩
+  · exact absurd ⟨0, 3, exRun03, rfl, by decide⟩ h2
+
+end example_
+
 end Mmtk.FreeList
